@@ -267,6 +267,18 @@ def confirm(v, resp):
         # Python's str.lower() and Rust's per-char to_lowercase agree except for final sigma; tolerate that one case
         if got != want and 'σ' not in want and 'ς' not in want:
             return 'text form is %r, canonical text is %r' % (got, want)
+        # ... parses back to the same entries, and decoding returns the inserted bytes
+        back = resp.get('back')
+        if m and back is not None and got == want:
+            if 'ok' not in back:
+                return 'the text form %r does not parse back: %s' % (got, back.get('err'))
+            b2 = {hx(k).decode(): hx(x).decode() for k, x in back['ok']}
+            if b2 != {k: x.lower() for k, x in m.items()}:
+                return 'the text form %r parses back to %r, inserted were %r' % (got, b2, m)
+        for k, x in resp.get('decoded', []):
+            k = hx(k).decode()
+            if got == want and k in m and x != m[k].lower():
+                return 'decoding the entry %r gives %r, inserted was %r' % (k, x, m[k])
         return None
     if 'ok' not in resp:
         return None
